@@ -543,4 +543,909 @@ def c09_class(it, p):
     return None
 
 
-PROPS = {'C01': c01, 'C09': c09, 'C10': c10, 'C11': c11, 'C12': c12}
+
+# ---- C04 captures ----------------------------------------------------------------------------------------------------------
+FLAG_RE = re.compile(r'\(\?([-i]+)\)')
+
+
+def flag_in_force(e, pos):
+    """textual flag state at byte offset pos (the last toggle wins)"""
+    prefix = e.encode('utf-8')[:pos].decode('utf-8', 'ignore')
+    ci = False
+    for m in FLAG_RE.finditer(prefix):
+        body = m.group(1)
+        i = 0
+        while i < len(body):
+            if body[i] == '-' and i + 1 < len(body):
+                ci = False
+                i += 2
+            else:
+                ci = True
+                i += 1
+    return '(?i)' if ci else ''
+
+
+def parse_spans(r):
+    """'1 0,3;0,1;-' -> [(0,3),(0,1),None]"""
+    out = []
+    for x in r.split(' ')[1].split(';'):
+        out.append(None if x == '-' else tuple(int(v) for v in x.split(',')))
+    return out
+
+
+def c04(res, rng, tier, replay=None):
+    if replay:
+        return replay_generic(replay)
+    n = sizes(tier, 1200, 15000)
+    res.rule = ('ExprGen globs x sampled paths; non-trivial = distinct (glob, matched path); tie: captures() indices and spans, matched text spans '
+                'for every index 0..n+1 borrowed and owned, impl vs the model leftmost-first matcher; oracle on the implementation: capture 0 is the path, '
+                'index n+1 is absent, participating captures ordered and disjoint, `? * $ [..]` captures separator-free, tree captures are runs '
+                'of complete components, every capture re-matches its own sub-expression (sliced by its span, flags in force prepended)')
+    items, built = prepare(res, rng, n)
+    tie_fields(res, items, ['caps'], 'C04 captures()')
+    kfs = {k['class']: k for k in W.known_findings('C04')}
+    recheck = []
+    for it in built:
+        if it.imm is None:
+            continue
+        eb = it.e.encode('utf-8')
+        toks = [c for c in (it.tree['ch'] if it.tree['k'] == 'K' else [it.tree]) if c['k'] in ('C', 'O', 'Z', 'T', 'A', 'R')]
+        ncap = len(toks)
+        caps = it.if_.get('caps', '')
+        if caps != '!' and len([c for c in caps.split(';') if c]) != ncap:
+            res.oracle_fail('captures() does not list one entry per capturing sub-expression', {'glob': it.e, 'caps': caps, 'expected': ncap})
+        for idx, (p, r) in enumerate(zip(it.paths, it.imm)):
+            if 'MISMATCH' in r:
+                res.oracle_fail('matched text is inconsistent: ' + r, {'glob': it.e, 'path': p})
+                break
+            if it.mmm is not None and idx < len(it.mmm) and r != it.mmm[idx]:
+                cls = 'rooted_first_tree' if it.cls.get('rft') == '1' else None
+                res.tie_fail('C04 capture spans differ from the model matcher', {'glob': it.e, 'path': p, 'impl': r, 'model': it.mmm[idx]})
+            if bit(r) != '1':
+                continue
+            res.evaluations += 1
+            res.nontrivial.add((it.e, p))
+            pb = p.encode('utf-8')
+            sp = parse_spans(r)
+            bad = None
+            if len(sp) != ncap + 2 or sp[0] != (0, len(pb)) or sp[-1] is not None:
+                bad = 'capture 0 / out-of-range index'
+            prev = 0
+            for k in range(1, min(len(sp), ncap + 1)):
+                if bad or sp[k] is None:
+                    continue
+                a, b = sp[k]
+                tok = toks[k - 1]
+                txt = pb[a:b]
+                if not (prev <= a <= b <= len(pb)):
+                    bad = 'captures out of order or overlapping'
+                    break
+                prev = b
+                if tok['k'] in ('C', 'O', 'Z') and b'/' in txt:
+                    bad = 'separator captured by ? * $ or a class'
+                if tok['k'] in ('C', 'O') and len(txt.decode('utf-8', 'ignore')) != 1:
+                    bad = 'class or ? did not capture exactly one character'
+                if tok['k'] == 'T' and txt:
+                    lead = a == 0 or pb[a - 1:a] == b'/' or txt.startswith(b'/')
+                    trail = b == len(pb) or txt.endswith(b'/') or pb[b:b + 1] == b'/'
+                    if not (lead and trail):
+                        bad = 'tree wildcard capture is not a run of complete components'
+                if tok['k'] in ('C', 'O', 'Z', 'A', 'R'):
+                    s0, n0 = tok['span']
+                    sub = eb[s0:s0 + n0].decode('utf-8', 'ignore')
+                    if '**' not in sub:
+                        recheck.append((it, p, k, flag_in_force(it.e, s0) + sub, txt.decode('utf-8', 'ignore')))
+            if bad:
+                cls = 'rooted_first_tree' if it.cls.get('rft') == '1' else None
+                if cls and cls in kfs:
+                    res.known_hits[cls] = res.known_hits.get(cls, 0) + 1
+                else:
+                    res.oracle_fail(bad, {'glob': it.e, 'path': p, 'spans': r, 'class': cls})
+                break
+        res.sample({'glob': it.e, 'caps': caps})
+    recheck = recheck[:sizes(tier, 6000, 60000)]
+    outs = W.run_impl(['mm %s %s' % (hx(sub), hx(txt)) for (_, _, _, sub, txt) in recheck])
+    for (it, p, k, sub, txt), o in zip(recheck, outs):
+        res.count('recheck:' + o[:1])
+        if o in ('err', 'panic'):
+            continue      # the sub-expression does not build on its own (rooted, singular, ...)
+        if bit(o) != '1':
+            res.oracle_fail('a capture is not matched by its own sub-expression',
+                            {'glob': it.e, 'path': p, 'index': k, 'sub_expression': sub, 'captured': txt})
+    for cls, kf in kfs.items():
+        w = kf['witness']
+        o = W.run_impl(['mm %s %s' % (hx(w['glob']), hx(w['path']))])[0]
+        sp = parse_spans(o) if bit(o) == '1' else []
+        txt = w['path'].encode()[sp[1][0]:sp[1][1]].decode() if len(sp) > 1 and sp[1] else None
+        known_line(res, kf, txt == w.get('capture'), 'glob=%r path=%r capture 1=%r' % (w['glob'], w['path'], txt))
+
+
+# ---- C05 totality --------------------------------------------------------------------------------------------------------------
+def nesting(e):
+    d = m = 0
+    for c in e:
+        if c in '{<':
+            d += 1
+            m = max(m, d)
+        elif c in '}>':
+            d = max(0, d - 1)
+    return m
+
+
+def c05_class(e):
+    nums = [int(d) for d in re.findall(r'\d+', e)]
+    if any(v >= 2 ** 31 for v in nums):
+        return 'huge_bounds'
+    prod = 1
+    for v in nums:
+        prod *= max(v, 1)
+    if prod >= 2 ** 31:
+        return 'huge_bounds'
+    if nesting(e) >= 40:
+        return 'deep_nesting'
+    return None
+
+
+def c05(res, rng, tier, replay=None):
+    if replay:
+        return replay_generic(replay)
+    n = sizes(tier, 4000, 100000)
+    res.rule = ('malformed stream (meta-character soup, one-edit corruptions and truncations of valid expressions, dangling flags and escapes, '
+                'multi-byte characters next to delimiters) + valid ExprGen globs with odd bounds (2^16, 2^32, 2^64) + nesting 10..120; every public '
+                'operation under catch_unwind; non-trivial = distinct expressions; tie: outcome (ok / parse error / rule error+kind / panic) impl vs model; '
+                'oracle: no panic outside the named classes huge_bounds, deep_nesting; compile error only with a large repetition bound')
+    exprs, seen = [], set()
+    for e in load_corpus('exprs.jsonl'):
+        if e not in seen:
+            seen.add(e)
+            exprs.append(e)
+    g = G.ExprGen(rng, wild=0.25)
+    while len(exprs) < n:
+        e = G.malformed(rng) if rng.random() < 0.6 else g.glob()
+        if e not in seen and len(e) < 160:
+            seen.add(e)
+            exprs.append(e)
+    for d in (10, 40, 80, 99, 120):
+        exprs.append('{' * d + 'a' + '}' * d)
+        exprs.append('<' * d + 'a' + '>' * d)
+        exprs.append('a' + '{b,' * d + 'c' + '}' * d)
+    items = stage_globs(exprs)
+    note_shapes(res, items)
+    kfs = {k['class']: k for k in W.known_findings('C05')}
+    for it in items:
+        res.evaluations += 1
+        res.nontrivial.add(it.e)
+        ih, mh = it.ihead.split(' ')[0], it.mhead.split(' ')[0]
+        cls = c05_class(it.e)
+        if ih != mh and not (ih == 'cerr' and mh == 'ok' and has_big_bound(it.e)) and not (cls and {ih, mh} <= {'panic', 'cerr', 'ok', 'crashed', 'model-stack-overflow', 'model-timeout'}):
+            res.tie_fail('C05 build outcome differs', {'glob': it.e, 'impl': it.impl[:200], 'model': it.model[:200]})
+        panicked = ih in ('panic', 'crashed', 'missing') or (ih == 'ok' and any(v == '!' for v in it.if_.values()))
+        if panicked:
+            if cls and cls in kfs and mh in ('panic', 'model-stack-overflow', 'model-timeout'):
+                res.known_hits[cls] = res.known_hits.get(cls, 0) + 1
+            else:
+                res.oracle_fail('panic while building or querying', {'glob': it.e, 'impl': it.impl[:300], 'class': cls})
+        if ih == 'cerr' and not has_big_bound(it.e):
+            res.oracle_fail('compile error for a program that is not oversized', {'glob': it.e})
+        if ih == 'ok' and it.mhead == 'ok':
+            for f in ('depth', 'text', 'root', 'exh', 'caps', 'sem', 'empty', 'comps'):
+                if (it.if_.get(f) == '!') != (it.mf.get(f) == '!') and not cls:
+                    res.tie_fail('C05 a query panics in only one of implementation and model', {'glob': it.e, 'field': f, 'impl': it.if_.get(f), 'model': it.mf.get(f)})
+    res.sample({'glob': items[-1].e[:40] + '...', 'outcome': items[-1].ihead})
+    res.sample({'glob': items[len(items) // 2].e, 'outcome': items[len(items) // 2].ihead})
+    # operations on built globs: partition, negation, matching (a sample)
+    built = [it for it in items if it.ihead == 'ok'][:sizes(tier, 800, 8000)]
+    cmds = ['part ' + hx(it.e) for it in built] + ['not ' + hx(it.e) for it in built] + \
+           ['mm %s %s %s %s' % (hx(it.e), hx(''), hx('a/b'), hx('/\n')) for it in built]
+    for c, o in zip(cmds, W.run_impl(cmds)):
+        res.evaluations += 1
+        if o.startswith(('panic', 'crashed', 'missing')) or '=!' in o:
+            e = W.unhx(c.split(' ')[1])
+            cls = c05_class(e)
+            if cls and cls in kfs:
+                res.known_hits[cls] = res.known_hits.get(cls, 0) + 1
+            else:
+                res.oracle_fail('panic in an operation on a built glob', {'cmd': c.split(' ')[0], 'glob': e, 'impl': o[:200]})
+    for cls, kf in kfs.items():
+        o = W.run_impl(['glob ' + hx(kf['witness']['glob'])])[0]
+        known_line(res, kf, o.startswith(('panic', 'crashed')) or '=!' in o, 'glob=%r outcome=%s' % (kf['witness']['glob'][:60], o[:30]))
+
+
+# ---- C06 rules --------------------------------------------------------------------------------------------------------------------
+def edge_kinds(t, first):
+    """deep set of the kinds of leaf that may begin (end) an expansion of t, every repetition written out at
+    least once: 'S' separator, 'Tr' / 'Tu' rooted / unrooted tree wildcard, 'Z' zero-or-more, 'X' anything else"""
+    k = t['k']
+    if k == 'S':
+        return {'S'}
+    if k == 'T':
+        return {'Tr' if t['root'] else 'Tu'}
+    if k == 'Z':
+        return {'Z'}
+    if k in ('L', 'C', 'O'):
+        return {'X'}
+    if k == 'A':
+        out = set()
+        for c in t['ch']:
+            out |= edge_kinds(c, first)
+        return out
+    if k == 'K':
+        return edge_kinds(t['ch'][0 if first else -1], first) if t['ch'] else set()
+    if k == 'R':
+        return edge_kinds(t['ch'][0], first)
+    return set()
+
+
+BOUND = {'S', 'Tr', 'Tu'}
+
+
+def wf_violations(t, left_ctx=False, out=None, top=True):
+    """the documented rules, evaluated over expansions (DESIGN C06); returns the set of violated rule tags.
+    left_ctx: something precedes this token in the expression."""
+    if out is None:
+        out = set()
+    k = t['k']
+    if k == 'K':
+        ch = t['ch']
+        for i in range(len(ch) - 1):
+            a, b = edge_kinds(ch[i], False), edge_kinds(ch[i + 1], True)
+            if a & BOUND and b & BOUND:
+                shallow = ch[i]['k'] in ('S', 'T') and ch[i + 1]['k'] in ('S', 'T')
+                out.add('adjacent_boundary')
+            if 'Z' in a and 'Z' in b:
+                out.add('adjacent_zom')
+        for i, c in enumerate(ch):
+            wf_violations(c, left_ctx or i > 0, out, False)
+    elif k == 'A':
+        for b in t['ch']:
+            toks = b['ch'] if b['k'] == 'K' else [b]
+            if len(toks) == 1 and toks[0]['k'] == 'T':
+                out.add('singular_tree')
+            if not left_ctx and edge_kinds(b, True) & {'S', 'Tr'}:
+                first = toks[0]
+                out.add('rooted_branch' if first['k'] in ('S', 'T') else 'rooted_branch_nested')
+            wf_violations(b, left_ctx, out, False)
+    elif k == 'R':
+        b = t['ch'][0]
+        toks = b['ch'] if b['k'] == 'K' else [b]
+        lo, hi = t['lo'], t['hi']
+        if hi is not None and (hi < lo or (lo == 0 and hi == 0)):
+            out.add('bounds')
+        if len(toks) == 1 and toks[0]['k'] == 'T':
+            out.add('singular_tree')
+        if len(toks) == 1 and toks[0]['k'] in ('S', 'Z'):
+            out.add('singular_body')
+        optional = lo == 0 or (hi is not None and min(lo, hi) == 0)
+        if optional and not left_ctx and edge_kinds(b, True) & {'S', 'Tr'}:
+            out.add('rooted_branch' if toks[0]['k'] in ('S', 'T') else 'rooted_branch_nested')
+        a, z = edge_kinds(b, False), edge_kinds(b, True)
+        if a & BOUND and z & BOUND and len(toks) > 1:
+            out.add('wrap_boundary' if toks[0]['k'] in ('S', 'T') and toks[-1]['k'] in ('S', 'T') else 'wrap_boundary_nested')
+        wf_violations(b, left_ctx, out, False)
+    return out
+
+
+C06_KNOWN_TAGS = {'rooted_branch_nested': 'nested_rooting', 'wrap_boundary_nested': 'wraparound_nested_edge'}
+
+
+def c06(res, rng, tier, replay=None):
+    if replay:
+        return replay_generic(replay)
+    n = sizes(tier, 5000, 120000)
+    res.rule = ('ExprGen expressions with a raised share of rule violations (adjacent boundaries / zero-or-more across branch edges at every nesting depth, '
+                'singular bodies, rooted branches, odd bounds) + exhaustive small shapes (branch in first / middle / last position, with sibling branches); '
+                'non-trivial = distinct expressions that parse; tie: Ok / Err + rule kind impl vs model; oracle: Glob::new(e).is_ok() <=> the documented '
+                'rules hold over the expansions of the parse tree (python re-statement of WF, independent of the code)')
+    exprs, seen = [], set()
+    for e in load_corpus('exprs.jsonl'):
+        if e not in seen:
+            seen.add(e)
+            exprs.append(e)
+    # exhaustive small shapes: a branch in every position with every edge atom
+    atoms = ['a', '/', '*', '**', '/**/', '**/', '/**', '?']
+    inner = []
+    for x in atoms:
+        for y in ['', 'b', '/', '*']:
+            inner.append(x + y if not (x.endswith('/') and y == '/') or True else x)
+    shapes = []
+    for b in inner:
+        for b2 in ['c', '/d', 'e/', '*']:
+            for wrap in ['{%s,%s}', '<%s:1,2>', '<%s:0,>', '{{%s,%s}f,g}', '<{%s,%s}:1,>']:
+                body = wrap.replace('%s', b, 1).replace('%s', b2, 1) if wrap.count('%s') == 2 else wrap % b
+                for ctx in ['%s', 'x%s', '%sy', 'x%sy', 'x/%s', '%s/y', 'x*%s', '%s*y', 'x/%s/y', '{p,q}%s{r,s}']:
+                    shapes.append(ctx % body)
+    rng.shuffle(shapes)
+    for e in shapes[:sizes(tier, 2500, len(shapes))]:
+        if e not in seen:
+            seen.add(e)
+            exprs.append(e)
+    g = G.ExprGen(rng, wild=0.2)
+    while len(exprs) < n:
+        e = g.glob()
+        if e not in seen and len(e) < 100:
+            seen.add(e)
+            exprs.append(e)
+    items = stage_globs(exprs)
+    note_shapes(res, items)
+    for it in items:
+        ih, mh = it.ihead, it.mhead
+        if ih.startswith('rerr') or mh.startswith('rerr'):
+            ih, mh = ' '.join(ih.split(' ')[:2]), ' '.join(mh.split(' ')[:2])     # kind, not span (spans are C17's)
+        elif ih.startswith('perr') or mh.startswith('perr'):
+            ih, mh = ih.split(' ')[0], mh.split(' ')[0]
+        if ih != mh and not (ih == 'cerr' and mh == 'ok' and has_big_bound(it.e)) and not c05_class(it.e):
+            res.tie_fail('C06 rule verdict differs', {'glob': it.e, 'impl': it.impl[:200], 'model': it.model[:200]})
+    # parse trees (before the rules) for the oracle
+    cand = [it for it in items if it.ihead.split(' ')[0] in ('ok', 'rerr') and not c05_class(it.e) and not has_big_bound(it.e)]
+    outs = W.run_impl(['parse ' + hx(it.e) for it in cand])
+    kfs = {k['class']: k for k in W.known_findings('C06')}
+    for it, o in zip(cand, outs):
+        h, f = W.fields(o)
+        if h != 'ok':
+            continue
+        try:
+            tree = G.read_tree(f['tree'])
+        except Exception:
+            continue
+        res.evaluations += 1
+        res.nontrivial.add(it.e)
+        v = wf_violations(tree)
+        ok = it.ihead == 'ok'
+        res.count('wf' if not v else 'illformed')
+        for tag in v:
+            res.count('rule:' + tag)
+        if ok == (not v):
+            continue
+        if ok:
+            unknown = [t for t in v if t not in C06_KNOWN_TAGS or C06_KNOWN_TAGS[t] not in kfs]
+            if unknown:
+                res.oracle_fail('an ill-formed expression builds', {'glob': it.e, 'violated': sorted(v)})
+            else:
+                for t in v:
+                    c = C06_KNOWN_TAGS[t]
+                    res.known_hits[c] = res.known_hits.get(c, 0) + 1
+        else:
+            res.oracle_fail('a well-formed expression is rejected', {'glob': it.e, 'impl': it.ihead})
+        if root_sometimes(it):
+            pass
+    for it in items:
+        if it.ihead == 'ok' and it.if_.get('root') == 'S':
+            if 'nested_rooting' in kfs and it.tree is not None and nested_rooting(it.tree):
+                res.known_hits['nested_rooting'] = res.known_hits.get('nested_rooting', 0) + 1
+            else:
+                res.oracle_fail('a built glob is sometimes rooted', {'glob': it.e})
+    for it in items[:8]:
+        res.sample({'glob': it.e, 'verdict': it.ihead})
+    for cls, kf in kfs.items():
+        w = kf['witness']
+        o = W.run_impl(['glob ' + hx(w['glob'])])[0]
+        known_line(res, kf, (o.split('\t')[0] == 'ok') == bool(w.get('builds', True)) , 'glob=%r outcome=%s' % (w['glob'], o.split('\t')[0]))
+
+
+def root_sometimes(it):
+    return it.if_.get('root') == 'S'
+
+
+# ---- C07 composition -------------------------------------------------------------------------------------------------------------
+def top_tokens(tree):
+    return tree['ch'] if tree['k'] == 'K' else [tree]
+
+
+def all_nodes_with_spans(t, repeated=False):
+    """alternations and repetitions that are not beneath a repetition that may write its body out twice
+    (there the choice is made per iteration: substitution in place is not a union)"""
+    if t['k'] in ('A', 'R') and not repeated:
+        yield t
+    if t['k'] == 'R':
+        lo, hi = t['lo'], t['hi']
+        repeated = repeated or hi is None or max(lo, hi) >= 2
+    for c in t.get('ch', []):
+        yield from all_nodes_with_spans(c, repeated)
+
+
+def c07(res, rng, tier, replay=None):
+    if replay:
+        return replay_generic(replay)
+    n = sizes(tier, 900, 12000)
+    res.rule = ('flag-free ExprGen globs; for an alternation / repetition at any depth the related expressions are made by text substitution through the '
+                'token spans (each branch in place; the body written out k times for every permitted k <= 4; single-branch braces and <x:1> wrapped around a '
+                'top-level token); families whose members all build are compared on the union of their sampled paths; non-trivial = distinct (family, path); '
+                'tie: any(): token tree, regex, is_match impl vs model, text vs compiled vs nested; oracle: match sets are equal as the property states')
+    g = G.ExprGen(rng, wild=0.02, maxdepth=2)
+    g.flag = lambda: ''
+    exprs, seen = [], set()
+    for e in load_corpus('exprs.jsonl'):
+        if '(?' not in e and e not in seen:
+            seen.add(e)
+            exprs.append(e)
+    while len(exprs) < n:
+        e = g.glob()
+        if e not in seen and len(e) < 80 and ('{' in e or '<' in e or rng.random() < 0.3):
+            seen.add(e)
+            exprs.append(e)
+    items = stage_globs(exprs)
+    note_shapes(res, items)
+    built = stage_match(items, rng, (10, 8))
+    kfs = {k['class']: k for k in W.known_findings('C07')}
+    fams = []      # (kind, original item, [member expressions], mode) mode: 'union' | 'equal'
+    for it in built:
+        eb = it.e.encode('utf-8')
+        nodes = list(all_nodes_with_spans(it.tree))
+        rng.shuffle(nodes)
+        for nd in nodes[:2]:
+            s0, n0 = nd['span']
+            pre, post = eb[:s0], eb[s0 + n0:]
+            if nd['k'] == 'A':
+                members = []
+                for b in nd['ch']:
+                    bs, bn = b['span']
+                    members.append((pre + eb[bs:bs + bn] + post).decode('utf-8', 'ignore'))
+                fams.append(('alternation', it, members))
+            else:
+                b = nd['ch'][0]
+                bs, bn = b['span']
+                lo, hi = nd['lo'], nd['hi']
+                if hi is not None and hi < lo:
+                    lo, hi = hi, lo
+                if lo > 4:
+                    continue
+                top = min(hi, 4) if hi is not None else 4
+                members = [(pre + eb[bs:bs + bn] * k + post).decode('utf-8', 'ignore') for k in range(lo, top + 1)]
+                fams.append(('repetition' if hi is not None and hi <= 4 else 'repetition_lower', it, members))
+        toks = top_tokens(it.tree)
+        if toks and it.tree['k'] == 'K':
+            t = rng.choice(toks)
+            s0, n0 = t['span']
+            if t['k'] != 'T' and n0 > 0:
+                sub = eb[s0:s0 + n0]
+                fams.append(('wrap', it, [(eb[:s0] + b'{' + sub + b'}' + eb[s0 + n0:]).decode('utf-8', 'ignore'),
+                                          (eb[:s0] + b'<' + sub + b':1>' + eb[s0 + n0:]).decode('utf-8', 'ignore')]))
+    fams = fams[:sizes(tier, 1500, 20000)]
+    cmds = []
+    for kind, it, members in fams:
+        args = ' '.join(hx(p) for p in it.paths)
+        for m in members:
+            cmds.append('mm %s %s' % (hx(m), args))
+    outs = W.run_impl(cmds)
+    louts = W.run_model(['lang ' + c[3:] for c in cmds])
+    pos = 0
+    for kind, it, members in fams:
+        rs = outs[pos:pos + len(members)]
+        ls = louts[pos:pos + len(members)]
+        pos += len(members)
+        if any(r in ('err', 'panic', 'crashed', 'missing') for r in rs) or it.imm is None or not members:
+            res.count('family-skipped:' + kind)
+            continue
+        res.count('family:' + kind)
+        unstable = it.cls.get('stable') == '0' or it.cls.get('rft') == '1' or any('stable=0' in l or 'rft=1' in l for l in ls)
+        bits = [[bit(x) for x in r.split('|')] for r in rs]
+        for j, p in enumerate(it.paths):
+            res.evaluations += 1
+            res.nontrivial.add((it.e, kind, p))
+            orig = bit(it.imm[j])
+            if kind == 'wrap':
+                okay = all(b[j] == orig for b in bits)
+            elif kind == 'repetition_lower':
+                okay = all(b[j] != '1' or orig == '1' for b in bits)      # every written-out form is included
+            else:
+                okay = (orig == '1') == any(b[j] == '1' for b in bits)
+            if not okay:
+                if unstable and 'unstable_tree_position' in kfs:
+                    res.known_hits['unstable_tree_position'] = res.known_hits.get('unstable_tree_position', 0) + 1
+                else:
+                    res.oracle_fail('%s does not compose' % kind, {'glob': it.e, 'members': members, 'path': p, 'original': orig,
+                                                                 'members_match': [b[j] for b in bits]})
+                break
+        res.sample({'glob': it.e, 'kind': kind, 'members': members[:3]})
+    # any(): union, three routes
+    anyf = []
+    for _ in range(sizes(tier, 500, 6000)):
+        anyf.append(rng.sample(built, rng.choice([1, 2, 2, 3])))
+    acmds = ['any ' + ' '.join(hx(it.e) for it in f) for f in anyf]
+    for f, a, b in zip(anyf, W.run_impl(acmds), W.run_model(acmds)):
+        ha, fa = W.fields(a)
+        hb, fb = W.fields(b)
+        if ha != hb or (ha == 'ok' and (fa.get('tree') != fb.get('tree') or fa.get('re') != fb.get('re'))):
+            res.tie_fail('C07 any(): token tree or program differs', {'any': [it.e for it in f], 'impl': a[:200], 'model': b[:200]})
+    mcmds, keep = [], []
+    for f in anyf:
+        ps = [p for it in f for p in it.paths[:8]]
+        es = ' '.join(hx(it.e) for it in f)
+        mcmds.append('anymm %d %s %s' % (len(f), es, ' '.join(hx(p) for p in ps)))
+        for it in f:
+            mcmds.append('mm %s %s' % (hx(it.e), ' '.join(hx(p) for p in ps)))
+        keep.append((f, ps))
+    outs = W.run_impl(mcmds)
+    mouts = W.run_model([c for c in mcmds if c.startswith('anymm')])
+    pos = mi = 0
+    for f, ps in keep:
+        a = outs[pos]
+        ms = outs[pos + 1:pos + 1 + len(f)]
+        pos += 1 + len(f)
+        am = mouts[mi]
+        mi += 1
+        if a in ('err', 'panic') or any(m in ('err', 'panic') for m in ms):
+            continue
+        if 'ANY-ROUTES-DIFFER' in a:
+            res.oracle_fail('any() of text, of compiled globs and nested any() disagree', {'any': [it.e for it in f], 'impl': a[:200]})
+        ab = [bit(x) for x in a.split('|')]
+        if am not in ('err', 'panic', 'model-timeout') and [bit(x) for x in am.split('|')] != ab:
+            res.tie_fail('C07 any(): is_match differs from the model', {'any': [it.e for it in f], 'impl': a[:120], 'model': am[:120]})
+        mb = [[bit(x) for x in m.split('|')] for m in ms]
+        for j, p in enumerate(ps):
+            res.evaluations += 1
+            if (ab[j] == '1') != any(b[j] == '1' for b in mb):
+                # the combinator re-encodes the branches at its own position: only tree wildcards can notice
+                if any(it.cls.get('stable') == '0' or it.cls.get('rft') == '1' for it in f) and 'unstable_tree_position' in kfs:
+                    res.known_hits['unstable_tree_position'] = res.known_hits.get('unstable_tree_position', 0) + 1
+                else:
+                    res.oracle_fail('any() is not the union of its patterns', {'any': [it.e for it in f], 'path': p, 'any_matches': ab[j],
+                                                                                'members_match': [b[j] for b in mb]})
+                break
+    for cls, kf in kfs.items():
+        w = kf['witness']
+        o = W.run_impl(['mm %s %s' % (hx(w['glob']), hx(w['path']))] + ['mm %s %s' % (hx(m), hx(w['path'])) for m in w['members']])
+        known_line(res, kf, (bit(o[0]) == '1') != any(bit(x) == '1' for x in o[1:]),
+                   'glob=%r members=%r path=%r: %s vs %s' % (w['glob'], w['members'], w['path'], bit(o[0]), [bit(x) for x in o[1:]]))
+
+
+# ---- C08 partition -------------------------------------------------------------------------------------------------------------------
+def split_prefix(prefix, p):
+    """the remainder r with join(prefix, r) == p as std::path joins, or None"""
+    if prefix == '':
+        return p
+    if p == prefix or p == prefix.rstrip('/') and prefix != '/':
+        return ''
+    pre = prefix if prefix.endswith('/') else prefix + '/'
+    if p.startswith(pre):
+        return p[len(pre):]
+    return None
+
+
+def c08_class(it, pf):
+    e = it.e
+    if it.cls.get('rft') == '1' or it.cls.get('stable') == '0':
+        return 'unstable_tree_position'
+    return None
+
+
+def c08(res, rng, tier, replay=None):
+    if replay:
+        return replay_generic(replay)
+    n = sizes(tier, 1500, 20000)
+    res.rule = ('ExprGen globs biased to literal / invariant prefixes (plain, case-flagged, rooted by `/`, `/**` or a repetition, invariant alternations and '
+                'repetitions in the prefix, wholly invariant) x sampled canonical paths; non-trivial = distinct (glob, canonical path); tie: partition(): prefix, '
+                'postfix expression, its token tree / program / has_root / captures, re-partition, impl vs model; oracle: a canonical path matches the glob <=> '
+                'it is prefix joined with a remainder that the postfix matches; postfix never rooted; re-partition is the identity; the displayed postfix is a '
+                'suffix of the expression and rebuilds into a glob with the same matches and captures')
+    exprs = gen_exprs(rng, n // 3)
+    g = G.ExprGen(rng, wild=0.02, maxdepth=2)
+    pre_atoms = ['a', 'b', 'ab', 'x.txt', '.', '..', 'é', '{a}', '<a:2>', '(?i)1', '(?i)a', '[a]', '{a/b}', '<a/:2>', '</a:1,>', 'ǅ', '(?i)ǅ', '[/]', '{a,a}']
+    while len(exprs) < n:
+        k = rng.randint(0, 3)
+        pre = '/'.join(rng.choice(pre_atoms) for _ in range(k))
+        lead = rng.choice(['', '', '/', '/**/' if k == 0 else '/'])
+        post = rng.choice(['', g.glob(1, sub=True), '**', '*', '**/' + g.component(1), g.component(1)])
+        sep = '/' if pre and post and not post.startswith('/') else ''
+        e = lead + pre + sep + post
+        exprs.append(e)
+    exprs = list(dict.fromkeys(exprs))
+    items = stage_globs(exprs)
+    note_shapes(res, items)
+    built = stage_match(items, rng)
+    kfs = {k['class']: k for k in W.known_findings('C08')}
+    cmds = ['part ' + hx(it.e) for it in built]
+    io, mo = W.run_impl(cmds), W.run_model(cmds)
+    jobs = []
+    for it, a, b in zip(built, io, mo):
+        if a != b and not c05_class(it.e):
+            res.tie_fail('C08 partition() differs', {'glob': it.e, 'impl': a[:400], 'model': b[:400]})
+        h, f = W.fields(a)
+        if h != 'ok' or it.imm is None:
+            continue
+        prefix = W.unhx(f['prefix'])
+        post = None if f.get('post') == '-' else W.unhx(f['post'])
+        res.count('post:none' if post is None else 'post:some')
+        res.count('prefix:empty' if prefix == '' else 'prefix:some')
+        if post is not None:
+            if f.get('proot') == 'A' or f.get('proot') == 'S':
+                cls = 'rooted_repetition'
+                if cls in kfs and re.search(r'<', it.e):
+                    res.known_hits[cls] = res.known_hits.get(cls, 0) + 1
+                else:
+                    res.oracle_fail('the postfix of a partition is rooted', {'glob': it.e, 'prefix': prefix, 'postfix': post})
+            if not it.e.endswith(post):
+                cls = 'partition_flag_before_root' if '(?' in it.e else None
+                if cls and cls in kfs:
+                    res.known_hits[cls] = res.known_hits.get(cls, 0) + 1
+                else:
+                    res.oracle_fail('the postfix does not display as a suffix of the expression', {'glob': it.e, 'postfix': post})
+            rp = f.get('repart')
+            if rp != '!' and rp is not None:
+                p2, e2 = rp.split('|')
+                if not (W.unhx(p2) == '' and e2 != '-' and W.unhx(e2) == post):
+                    cls = 'rooted_repetition' if (f.get('proot') in ('A', 'S')) else None
+                    if cls and cls in kfs:
+                        res.known_hits[cls] = res.known_hits.get(cls, 0) + 1
+                    else:
+                        res.oracle_fail('partitioning the postfix again is not the identity', {'glob': it.e, 'postfix': post, 'repartition': [W.unhx(p2), e2]})
+        canon = [(j, p) for j, p in enumerate(it.paths) if G.canonical(p)]
+        rests = [(j, p, split_prefix(prefix, p)) for j, p in canon]
+        jobs.append((it, prefix, post, f, rests))
+    # postfix matches on the remainders (through the rebuilt displayed postfix: also checks the rebuild)
+    mcmds, keep = [], []
+    for it, prefix, post, f, rests in jobs:
+        rs = [r for (_, _, r) in rests if r is not None]
+        if post is not None and rs:
+            mcmds.append('mm %s %s' % (hx(post), ' '.join(hx(r) for r in rs)))
+            keep.append((it, prefix, post, f, rests, True))
+        else:
+            keep.append((it, prefix, post, f, rests, False))
+    outs = iter(W.run_impl(mcmds))
+    for it, prefix, post, f, rests, has in keep:
+        o = next(outs) if has else None
+        if has and o in ('err', 'panic'):
+            cls = 'partition_flag_before_root' if '(?' in it.e else None
+            if cls and cls in kfs:
+                res.known_hits[cls] = res.known_hits.get(cls, 0) + 1
+            else:
+                res.oracle_fail('the displayed postfix does not rebuild', {'glob': it.e, 'postfix': post})
+            continue
+        pm = iter(o.split('|')) if has else iter([])
+        for j, p, r in rests:
+            res.evaluations += 1
+            res.nontrivial.add((it.e, p))
+            whole = bit(it.imm[j]) == '1'
+            if r is None:
+                parts = False
+            elif post is None:
+                parts = (r == '')
+            else:
+                parts = bit(next(pm)) == '1'
+            if whole != parts:
+                cls = c08_class(it, f)
+                if has_sep_class(it.tree):
+                    cls = 'separator_class'
+                elif post is not None and it.e.endswith(post) and flag_in_force(it.e, len(it.e.encode()) - len(post.encode())) == '(?i)':
+                    cls = 'partition_flag_loss'
+                elif f.get('proot') in ('A', 'S'):
+                    cls = 'rooted_repetition'
+                elif r == '' and parts and not whole and (post is not None or p != prefix):
+                    cls = 'prefix_only_path'
+                if cls and cls in kfs:
+                    res.known_hits[cls] = res.known_hits.get(cls, 0) + 1
+                else:
+                    res.oracle_fail('matching the glob differs from matching prefix + postfix',
+                                    {'glob': it.e, 'path': p, 'prefix': prefix, 'postfix': post, 'remainder': r, 'glob_matches': whole, 'parts_match': parts, 'class': cls})
+                break
+        res.sample({'glob': it.e, 'prefix': prefix, 'postfix': post})
+    for cls, kf in kfs.items():
+        w = kf['witness']
+        h, f = W.fields(W.run_impl(['part ' + hx(w['glob'])])[0])
+        known_line(res, kf, h == 'ok' and all(f.get(k) == v for k, v in w.get('expect', {}).items()),
+                   'glob=%r prefix=%s postfix=%s proot=%s' % (w['glob'], f.get('prefix'), f.get('post'), f.get('proot')))
+
+
+# ---- C17 spans --------------------------------------------------------------------------------------------------------------------------
+def span_ok(eb, s, n):
+    if s < 0 or n < 0 or s + n > len(eb):
+        return False
+    for x in (s, s + n):
+        if x < len(eb) and (eb[x] & 0xC0) == 0x80:
+            return False
+    return True
+
+
+def c17(res, rng, tier, replay=None):
+    if replay:
+        return replay_generic(replay)
+    n = sizes(tier, 5000, 120000)
+    res.rule = ('malformed stream with multi-byte characters next to every fault (parse errors, faults at the end of input), rule violations, valid globs and '
+                'their partitions; non-trivial = distinct expressions that produce at least one span; tie: every error and capture span impl vs model; '
+                'oracle: every span lies within the expression on character boundaries; a capture span slices to a sub-expression that parses to exactly one '
+                'token of the same kind; after partition the spans refer to the postfix expression')
+    exprs, seen = [], set()
+    for e in load_corpus('exprs.jsonl'):
+        if e not in seen:
+            seen.add(e)
+            exprs.append(e)
+    g = G.ExprGen(rng, wild=0.2)
+    multi = ['愛', 'é', 'ꙮ', '𝄞']
+    while len(exprs) < n:
+        x = rng.random()
+        e = G.malformed(rng) if x < 0.45 else g.glob()
+        if rng.random() < 0.5 and e:
+            i = rng.randrange(len(e) + 1)
+            e = e[:i] + rng.choice(multi) + e[i:]
+        if rng.random() < 0.1:
+            e = e + rng.choice(['(?i)', '\\', '愛\\愛', '(?-i)', '[', '{a,', '<a:'])
+        if e not in seen and len(e) < 120:
+            seen.add(e)
+            exprs.append(e)
+    items = stage_globs(exprs)
+    note_shapes(res, items)
+    slices = []
+    for it in items:
+        eb = it.e.encode('utf-8')
+        ih = it.ihead
+        if ih.startswith(('perr', 'rerr')):
+            res.evaluations += 1
+            res.nontrivial.add(it.e)
+            if it.ihead != it.mhead and not c05_class(it.e):
+                res.tie_fail('C17 error spans differ', {'glob': it.e, 'impl': it.ihead, 'model': it.mhead})
+            spans = ih.split(' ')[-1]
+            for sp in [x for x in spans.split(';') if x]:
+                s0, n0 = (int(v) for v in sp.split(','))
+                if not span_ok(eb, s0, n0):
+                    res.oracle_fail('an error span does not index the expression safely', {'glob': it.e, 'span': [s0, n0], 'bytes': len(eb), 'error': ih})
+                    break
+        elif ih == 'ok':
+            caps = it.if_.get('caps', '')
+            if it.mhead == 'ok' and caps != it.mf.get('caps') and not c05_class(it.e):
+                res.tie_fail('C17 capture spans differ', {'glob': it.e, 'impl': caps, 'model': it.mf.get('caps')})
+            if caps and caps != '!':
+                res.evaluations += 1
+                res.nontrivial.add(it.e)
+                toks = [c for c in top_tokens(it.tree) if c['k'] in ('C', 'O', 'Z', 'T', 'A', 'R')] if it.tree else []
+                for k, c in enumerate(caps.split(';')):
+                    idx, sp = c.split(':')
+                    s0, n0 = (int(v) for v in sp.split(','))
+                    if not span_ok(eb, s0, n0):
+                        res.oracle_fail('a capture span does not index the expression safely', {'glob': it.e, 'span': [s0, n0], 'bytes': len(eb)})
+                        break
+                    if k < len(toks):
+                        slices.append((it, k, toks[k]['k'], eb[s0:s0 + n0].decode('utf-8', 'ignore'), 'glob'))
+    # partitions
+    built = [it for it in items if it.ihead == 'ok'][:sizes(tier, 1500, 20000)]
+    pc = ['part ' + hx(it.e) for it in built]
+    for it, a, b in zip(built, W.run_impl(pc), W.run_model(pc)):
+        h, f = W.fields(a)
+        hb, fb = W.fields(b)
+        if h != 'ok' or f.get('post', '-') == '-':
+            continue
+        if hb == 'ok' and f.get('pcaps') != fb.get('pcaps') and not c05_class(it.e):
+            res.tie_fail('C17 capture spans of the postfix differ', {'glob': it.e, 'impl': f.get('pcaps'), 'model': fb.get('pcaps')})
+        post = W.unhx(f['post'])
+        pb = post.encode('utf-8')
+        try:
+            ptoks = [c for c in top_tokens(G.read_tree(f['ptree'])) if c['k'] in ('C', 'O', 'Z', 'T', 'A', 'R')]
+        except Exception:
+            ptoks = []
+        pcs = f.get('pcaps', '')
+        if pcs and pcs != '!':
+            res.evaluations += 1
+            res.nontrivial.add((it.e, 'partition'))
+            for k, c in enumerate(pcs.split(';')):
+                idx, sp = c.split(':')
+                s0, n0 = (int(v) for v in sp.split(','))
+                if not span_ok(pb, s0, n0):
+                    res.oracle_fail('a capture span of the postfix does not index the postfix expression safely',
+                                    {'glob': it.e, 'postfix': post, 'span': [s0, n0], 'bytes': len(pb)})
+                    break
+                if k < len(ptoks):
+                    slices.append((it, k, ptoks[k]['k'], pb[s0:s0 + n0].decode('utf-8', 'ignore'), 'postfix ' + post))
+    slices = slices[:sizes(tier, 8000, 100000)]
+    outs = W.run_impl(['parse ' + hx(sl) for (_, _, _, sl, _) in slices])
+    kfs = {k['class']: k for k in W.known_findings('C17')}
+    for (it, k, kind, sl, where), o in zip(slices, outs):
+        h, f = W.fields(o)
+        good = False
+        if h == 'ok':
+            try:
+                t = G.read_tree(f['tree'])
+                tt = top_tokens(t)
+                good = len(tt) == 1 and tt[0]['k'] == kind
+            except Exception:
+                good = False
+        res.count('slice:' + ('ok' if good else 'bad'))
+        if not good:
+            cls = 'partition_flag_before_root' if (where != 'glob' and '(?' in it.e) else None
+            if cls and cls in kfs:
+                res.known_hits[cls] = res.known_hits.get(cls, 0) + 1
+            else:
+                res.oracle_fail('a capture span does not delimit exactly the text of its sub-expression',
+                                {'glob': it.e, 'where': where, 'index': k + 1, 'kind': kind, 'slice': sl, 'parse': o[:120]})
+    for it in items[:6]:
+        res.sample({'glob': it.e, 'outcome': it.ihead[:60]})
+    for cls, kf in kfs.items():
+        w = kf['witness']
+        h, f = W.fields(W.run_impl(['part ' + hx(w['glob'])])[0])
+        known_line(res, kf, h == 'ok' and f.get('post') == hx(w['postfix']), 'glob=%r postfix displays as %r' % (w['glob'], W.unhx(f['post']) if f.get('post', '-') != '-' else None))
+
+
+# ---- C18 escape ---------------------------------------------------------------------------------------------------------------------------
+def c18(res, rng, tier, replay=None):
+    if replay:
+        return replay_generic(replay)
+    n = sizes(tier, 4000, 200000)
+    res.rule = ('random strings over the meta-characters, separators, flag-like and class-like text, `-`, `!`, spaces, non-ASCII and control characters '
+                '(every subset and order occurs); non-trivial = distinct strings; tie: escape() impl vs model, and the tables is_meta_character / '
+                'is_contextual_meta_character / "parser does not read this character as itself" over all 1,114,112 code points impl vs model; oracle: for strings '
+                'without backslash and adjacent separators the escaped glob builds, reports the string as invariant text, matches it and no one-edit mutant; '
+                'every parser-special character except `/` and `\\` is reported as a meta-character; strings without meta-characters are unchanged')
+    # tables over all code points (dumped by build_all from the built code)
+    meta = open(os.path.join(W.TABLES, 'meta.tbl')).read().strip()
+    special = open(os.path.join(W.TABLES, 'special.tbl')).read().strip()
+    mm = W.run_model(['meta 0 1114112', 'special 0 1114112'], shards=2)
+    res.evaluations += 2
+    if mm[0] != meta:
+        res.tie_fail('C18 meta-character tables differ over all code points', {'impl': meta, 'model': mm[0]})
+    if mm[1] != special:
+        res.tie_fail('C18 parser-special character sets differ over all code points', {'impl': special, 'model': mm[1]})
+    metas = set(int(x) for x in meta.split('\t')[0][5:].split(',') if x)
+    specials = set(int(x) for x in special.split(',') if x)
+    missing = specials - metas - {47, 92}
+    if missing:
+        res.oracle_fail('a character the parser treats specially is not reported as a meta-character', {'characters': [chr(c) for c in sorted(missing)]})
+    alpha = list('?*$:<>()[]{},') * 2 + list('/-!ai. \n\t') + ['é', '愛', 'ǅ', '(?i)', '[a-c]', '{a,b}', '<a:1>', '**', 'x']
+    strs, seen = [], set()
+    while len(strs) < n:
+        s = ''.join(rng.choice(alpha) for _ in range(rng.randint(0, 10)))
+        if s not in seen:
+            seen.add(s)
+            strs.append(s)
+    ecmds = ['esc ' + hx(s) for s in strs]
+    ie, me = W.run_impl(ecmds), W.run_model(ecmds)
+    gcmds, keep = [], []
+    for s, a, b in zip(strs, ie, me):
+        res.evaluations += 1
+        res.nontrivial.add(s)
+        if a != b:
+            res.tie_fail('C18 escape() differs', {'text': s, 'impl': a, 'model': b})
+        esc = W.unhx(a)
+        if not any(ord(c) in metas for c in s) and esc != s:
+            res.oracle_fail('escape changes a string without meta-characters', {'text': s, 'escaped': esc})
+        if '\\' in s or '//' in s:
+            continue
+        muts = [G.mutate(s, rng) for _ in range(3)]
+        muts = [m for m in muts if m != s]
+        gcmds.append('glob ' + hx(esc))
+        gcmds.append('mm %s %s' % (hx(esc), ' '.join(hx(p) for p in [s] + muts)))
+        keep.append((s, esc, muts))
+    outs = W.run_impl(gcmds)
+    for i, (s, esc, muts) in enumerate(keep):
+        g_, m_ = outs[2 * i], outs[2 * i + 1]
+        h, f = W.fields(g_)
+        if h != 'ok':
+            res.oracle_fail('the escaped string does not build', {'text': s, 'escaped': esc, 'impl': g_[:120]})
+            continue
+        if f.get('text') != 'I' + hx(s):
+            res.oracle_fail('the escaped glob does not report the string as its invariant text', {'text': s, 'escaped': esc, 'reported': f.get('text')})
+            continue
+        rs = m_.split('|')
+        if bit(rs[0]) != '1' or any(bit(r) == '1' for r in rs[1:]):
+            res.oracle_fail('the escaped glob does not match exactly the string', {'text': s, 'escaped': esc, 'mutants': muts, 'results': [bit(r) for r in rs]})
+    for s, esc, _ in keep[:8]:
+        res.sample({'text': s, 'escaped': esc})
+
+
+# ---- C19 conversions -----------------------------------------------------------------------------------------------------------------------
+def c19(res, rng, tier, replay=None):
+    if replay:
+        c = replay['case']
+        print(W.run_impl(['routes %s %s' % (hx(c['glob']), ' '.join(hx(p) for p in c.get('paths', [''])))]))
+        return 1
+    n = sizes(tier, 1200, 20000)
+    res.rule = ('ExprGen globs x sampled paths; non-trivial = distinct (glob, path); every conversion route (Display+new, clone, into_owned, FromStr, TryFrom, '
+                'clone of owned; any() of text / compiled / owned) must give identical observables: token tree, program, every query, is_match and all capture '
+                'spans borrowed and owned; tie: the token tree and program of the original impl vs model (the model is route-free by construction)')
+    items, built = prepare(res, rng, n, npaths=(8, 6))
+    tie_fields(res, items, ['tree', 're'], 'C19 build')
+    cmds = ['routes %s %s' % (hx(it.e), ' '.join(hx(p) for p in it.paths)) for it in built]
+    for it, o in zip(built, W.run_impl(cmds)):
+        res.evaluations += len(it.paths)
+        for p in it.paths:
+            res.nontrivial.add((it.e, p))
+        res.count('routes:' + o.split(' ')[0])
+        if not o.startswith('same'):
+            if o.startswith('panic') and c05_class(it.e):
+                continue
+            res.oracle_fail('conversion routes disagree: ' + o, {'glob': it.e, 'paths': it.paths[:6]})
+        if it.imm is not None and any('OWNED-MISMATCH' in r for r in it.imm):
+            res.oracle_fail('owned matched text differs from the borrowed matched text', {'glob': it.e})
+    for it in built[:8]:
+        res.sample({'glob': it.e, 'paths': it.paths[:3]})
+
+
+PROPS = {'C01': c01, 'C04': c04, 'C05': c05, 'C06': c06, 'C07': c07, 'C08': c08, 'C09': c09, 'C10': c10, 'C11': c11, 'C12': c12,
+         'C17': c17, 'C18': c18, 'C19': c19}
